@@ -361,4 +361,6 @@ func genC14(g *Gen) {
 			slice(ws, from, to, "slice-rand")
 		}
 	}
+
+	genC14Widen(g) // harness/c14w.go: mask tables, Getw on any bitmap, split + Join
 }
